@@ -1,0 +1,43 @@
+//go:build verif
+
+package p2pke
+
+// Verification hooks, compiled only with -tags verif: read-only views of session and channel state, and
+// direct entry points to the timer callbacks so that a harness can drive them deterministically.
+
+func (s *Session) VerifHsIndex() uint8   { return s.hsIndex }
+func (s *Session) VerifNonce() uint64    { return s.nonce }
+func (s *Session) VerifCanSend() bool    { return s.canSend() }
+func (s *Session) VerifCanReceive() bool { return s.canReceive() }
+
+// VerifSlot describes one of the channel's three session slots.
+type VerifSlot struct {
+	Present bool
+	IsInit  bool
+	HsIndex uint8
+	Ready   bool
+	Nonce   uint64
+}
+
+func (c *Channel) VerifSlots() (ret [3]VerifSlot) {
+	c.mu.RLock()
+	defer c.mu.RUnlock()
+	for i, se := range c.sessions {
+		if se.Session != nil {
+			ret[i] = VerifSlot{true, se.Session.isInit, se.Session.hsIndex, se.Session.IsReady(), se.Session.nonce}
+		}
+	}
+	return ret
+}
+
+// VerifDetachTimers replaces both timers by ones whose callback does nothing, so that only
+// VerifOnRekey / VerifOnHandshake run the timer logic.
+func (c *Channel) VerifDetachTimers() {
+	c.rekeyTimer.StopSync()
+	c.handshakeTimer.StopSync()
+	c.rekeyTimer = newTimer(func() {})
+	c.handshakeTimer = newTimer(func() {})
+}
+
+func (c *Channel) VerifOnRekey()     { c.onRekey() }
+func (c *Channel) VerifOnHandshake() { c.onHandshake() }
